@@ -445,6 +445,40 @@ def bounded(pr):
                 d = ['%s: %s' % (type(e).__name__, e)]
             if d and len(viol) < 3:
                 viol.append({'what': '%s own hydrogens fed back with --keep-protons: %s' % (name, d[:2]), 'replay': None})
+    # unused records in a FILE (read from its path, not from a text stream) with letters outside ASCII - authors' names, journal titles
+    import os
+    import tempfile
+    import propka.run as prun
+    d7 = tempfile.mkdtemp()
+    import locale
+    enc7 = locale.getpreferredencoding(False)       # what open(path, 'rt') uses on this platform
+    try:
+        '\u00dc\u00c5\u2013'.encode(enc7)
+        names7 = names[:2]
+    except (UnicodeError, LookupError):
+        names7 = []                                  # a platform whose text encoding cannot hold such a file: nothing to compare
+    try:
+        for name in names7:
+            ev += 1
+            classes.add('non-ASCII text in unused records (path input)')
+            base = native.pdb_lines(name)
+            extra = ['AUTHOR    J. M\u00dcLLER, \u00c5. S\u00d6DERBERG\n', 'REMARK 999 r\u00e9sum\u00e9 \u00b5 \u2013 \u00c5ngstr\u00f6m\n',
+                     'JRNL        TITL   STRUCTURE \u00e0 2.0 \u00c5\n']
+            plain, deco = os.path.join(d7, name + '.pdb'), os.path.join(d7, name + '-deco.pdb')
+            open(plain, 'w', encoding=enc7).write(''.join(base))
+            open(deco, 'w', encoding=enc7).write(''.join(extra[:2] + base[:5] + extra[2:] + base[5:]))
+            try:
+                a_ = native.record(prun.single(plain, optargs=['-q'], write_pka=False))
+                b_ = native.record(prun.single(deco, optargs=['-q'], write_pka=False))
+                d = native.diff_records(a_, b_, tol=1e-9)
+            except Exception as e:    # noqa
+                d = ['%s: %s' % (type(e).__name__, e)]
+            if d and len(viol) < 3:
+                viol.append({'what': '%s read from a file whose AUTHOR / REMARK / JRNL records contain non-ASCII letters (platform text encoding): %s'
+                                     % (name, d[:2]), 'replay': None})
+    finally:
+        import shutil
+        shutil.rmtree(d7, ignore_errors=True)
     pr.bounded.append({'name': 'C07-monitor: unused content / options on real runs', 'evaluations': ev, 'distinct_nontrivial': len(classes),
                        'bound': '%d structures x 3 edits (+ own hydrogens fed back)' % len(names),
                        'rule': 'whole-pipeline records compared to 1e-9 (fed-back hydrogens: 0.011, coordinates are written with 3 decimals)',
